@@ -143,6 +143,29 @@ void run_box(vfz::Dec& d, std::string& desc, bool& nontrivial) {
       }
       if (uses[id.value] >= 3) replayed_deep = true;
     };
+    // "reused any number of times": in a share of the inputs one slot first goes through about 2^16 / 2^17
+    // emplace/take/release rounds; the first receipts stay around as stale ids
+    if (d.u8() % 8 == 0) {
+      uint32_t rounds = (d.flip() ? 65536u : 131072u) - 6 + d.u8() % 12;
+      VV first{};
+      for (uint32_t i = 0; i < rounds; i++) {
+        uint64_t x = next_x++;
+        VV id = box.emplace(x);
+        if (id.value != 0) vfz::fail(desc, "long history round %u: emplace used slot %u although slot 0 is released", i, id.value);
+        if (i == 0) first = id;
+        else if (box.take_released(first) != nullptr)
+          vfz::fail(desc, "long history round %u: the receipt of round 0 (version %u) matched again (new receipt version %u)", i, first.version, id.version);
+        Item* p = box.take_released(id);
+        if (!p || p->x != x) vfz::fail(desc, "long history round %u: take of the untouched deposit failed", i);
+        box.finish_released(id);
+        if (i < 40 || i + 4 >= rounds) stale.push_back(id);
+      }
+      nslots = 1;
+      free_slots.insert(0);
+      uses[0] = (int)rounds;
+      desc += "long" + std::to_string(rounds) + " ";
+      vfz::label("box_2^16_history");
+    }
     int nops = 0;
     while (!d.done() && nops++ < 600) {
       uint8_t op = d.u8();
